@@ -346,9 +346,19 @@ class FuncTr:
         cur = ('entry', [])
         blocks.append(cur)
         entry_label = None
+        pend_switch = None   # multi-line 'switch ... [' ... ']' is joined into one instruction
         for ln in self.body[1:]:
             ln = ln.split(' ; ')[0] if not '"' in ln else ln
             if not ln.strip():
+                continue
+            if pend_switch is not None:
+                pend_switch += ' ' + ln.strip()
+                if ln.strip() == ']':
+                    cur[1].append(pend_switch)
+                    pend_switch = None
+                continue
+            if ln.strip().startswith('switch ') and ln.rstrip().endswith('['):
+                pend_switch = ln.strip()
                 continue
             mm = re.match(r'^([A-Za-z0-9_.$-]+|"[^"]+"):', ln)
             if mm:
